@@ -73,6 +73,30 @@ func argToOptsKeyVal(key interface{}) string {
 	return keyVal
 }
 
+// copy returns a duplicate of the options set that shares no state with o.
+func (o *Options) copy() *Options {
+	c := &Options{
+		Format:        o.Format,
+		formatOptions: make(map[string]interface{}, len(o.formatOptions)),
+	}
+	if o.RenderOptions != nil {
+		ro := *o.RenderOptions
+		c.RenderOptions = &ro
+	}
+	if o.SerializeOptions != nil {
+		so := *o.SerializeOptions
+		c.SerializeOptions = &so
+	}
+	if o.StoreOptions != nil {
+		sto := *o.StoreOptions
+		c.StoreOptions = &sto
+	}
+	for k, v := range o.formatOptions {
+		c.formatOptions[k] = v
+	}
+	return c
+}
+
 func (o *Options) GetFormatOptions(key interface{}) interface{} {
 	keyVal := argToOptsKeyVal(key)
 	if _, ok := o.formatOptions[keyVal]; ok {
